@@ -581,13 +581,37 @@ theorem proxy_attempts_bounded (c : PCfg) (hold get : Bool) (s : PState) :
 /-- a request is refused with 503 only if the first `Select` found nothing: no upstream was
     available then (for the policies and under the exclusions of `select_some_if_any_available_partial`) -/
 theorem proxy_refuses_only_when_nothing_available (c : PCfg) (hold get : Bool) (s : PState)
-    (hl : liveOK (mkPool c c.ups s.loads s.fails) s.pol = true)
+    (hl : liveOK (poolOf c s) s.pol = true)
     (h : (attempt c hold get c.retries .none s).2.1 = .status 503) :
-    anyAvail (mkPool c c.ups s.loads s.fails) = false := by
+    anyAvail (poolOf c s) = false := by
   have hnone := attempt_503_first_nil c hold get c.retries s h
-  cases ha : anyAvail (mkPool c c.ups s.loads s.fails) with
+  cases ha : anyAvail (poolOf c s) with
   | false => rfl
   | true => exact absurd hnone (select_some_if_any_available_partial s.pol true _ s.draws hl ha)
+
+/-- while the handler's circuit breaker is open no request is proxied: every `Select` of the request
+    returns nil (each upstream consults the breaker, static or dynamic) -/
+theorem proxy_open_breaker_proxies_nothing (c : PCfg) (hold get : Bool) (left : Nat) (prev : PErr) (s : PState)
+    (h : s.cb = some false) :
+    (∀ i, (attempt c hold get left prev s).2.1 ≠ .sent i) ∧ ∀ j, some j ∉ (attempt c hold get left prev s).1 := by
+  induction left generalizing prev s with
+  | zero =>
+    unfold attempt
+    split
+    · simp
+    · rename_i i hsel; exact absurd hsel (tripped_none_available h i)
+    · simp
+    · simp
+  | succ left ih =>
+    unfold attempt
+    split
+    · split
+      · have := ih (carried prev) (afterSel c s) h
+        exact ⟨this.1, by intro j hj; simp at hj; exact this.2 j hj⟩
+      · simp
+    · rename_i i hsel; exact absurd hsel (tripped_none_available h i)
+    · simp
+    · simp
 
 /-- `tryAgain`: no retry once `lb_retries` is used up, and a POST request is not retried after an
     error that is not a dial error (the upstream may have acted on it); dial errors and "no
@@ -730,6 +754,14 @@ theorem leastConn_never_runs_out_of_draws (pool : Pool) (ds : List Nat) (h : poo
     (selLeastConn pool ds).1 ≠ .starved :=
   lcGo_not_starved pool 0 .none 0 none ds (by simp) h
 
+/-- random_choose needs at most one draw per upstream plus one (reservoir loop, then leastRequests),
+    provided no draw falls into the sliver `Int31n` rejects: `Int31() ≤ 2^31 − |pool|` for every draw
+    (the rejected range is smaller than `n ≤ |pool|`; probability `< |pool| / 2^31` per draw) -/
+theorem randomChoose_never_runs_out_of_draws (k : Nat) (pool : Pool) (ds : List Nat)
+    (ha : ∀ d ∈ ds, int31 d + pool.length ≤ 2147483648) (hl : pool.length + 1 ≤ ds.length) :
+    (selRandomChoose k pool ds).1 ≠ .starved :=
+  selRandomChoose_draws k pool ds ha hl
+
 /-! ## non-vacuity: the hypotheses are met by concrete non-trivial instances (kernel-evaluated) -/
 
 /-- healthy flag, passive failures 1 < 2, breaker closed, load 3 below the limit 4, hash `h` -/
@@ -827,7 +859,7 @@ example : exPool.length ≤ [3, 0, 1, 0, 0].length ∧ (selRandom exPool [3, 0, 
 
 -- the proxy loop. static upstreams 7 (dial fails), 9, 11 (own max_requests 2); unhealthy_request_count 1,
 -- fail_duration set, lb_retries 2, policy first:
-def exCfg : PCfg := ⟨false, 1, true, 0, 2, [⟨7, 0, 1⟩, ⟨9, 0, 0⟩, ⟨11, 2, 0⟩]⟩
+def exCfg : PCfg := ⟨false, 1, true, 0, 2, [⟨7, 0, 1⟩, ⟨9, 0, 0⟩, ⟨11, 2, 0⟩], false⟩
 -- held GET: 7 fails (counted), retried on 9 and held there; GET: 9 is at its limit 1 → 11; POST → 11 (limit 2 of its own);
 -- the held request completes
 example : (prun exCfg (pinit .first exCfg []) [.arrive true true, .arrive false true, .arrive false false, .fin 0]).1
@@ -835,11 +867,11 @@ example : (prun exCfg (pinit .first exCfg []) [.arrive true true, .arrive false 
     (prun exCfg (pinit .first exCfg []) [.arrive true true, .arrive false true]).2.loads = [0, 1, 0] ∧
     (prun exCfg (pinit .first exCfg []) [.arrive true true, .arrive false true]).2.fails = [1, 0, 0] := by decide
 -- own max_requests 2 beats unhealthy_request_count 1: two held requests fit on address 11, the third is refused
-example : (prun ⟨false, 1, false, 0, 0, [⟨11, 2, 0⟩]⟩ (pinit .first ⟨false, 1, false, 0, 0, [⟨11, 2, 0⟩]⟩ [])
+example : (prun ⟨false, 1, false, 0, 0, [⟨11, 2, 0⟩], false⟩ (pinit .first ⟨false, 1, false, 0, 0, [⟨11, 2, 0⟩], false⟩ [])
     [.arrive true true, .arrive true true, .arrive true true]).1
       = [.req [] (.sent 0), .req [] (.sent 0), .req [none] (.status 503)] := by decide
 -- "other" error: a GET is retried (lb_retries 1, no failure counting: the same upstream again), a POST is not
-example : (prun ⟨false, 0, false, 0, 1, [⟨7, 0, 2⟩, ⟨9, 0, 0⟩]⟩ (pinit .first ⟨false, 0, false, 0, 1, [⟨7, 0, 2⟩, ⟨9, 0, 0⟩]⟩ [])
+example : (prun ⟨false, 0, false, 0, 1, [⟨7, 0, 2⟩, ⟨9, 0, 0⟩], false⟩ (pinit .first ⟨false, 0, false, 0, 1, [⟨7, 0, 2⟩, ⟨9, 0, 0⟩], false⟩ [])
     [.arrive false true, .arrive false false]).1
       = [.req [some 0, some 0] (.status 502), .req [some 0] (.status 502)] := by decide
 -- dynamic upstreams: the failure count lives only as long as somebody references the host, so without other
@@ -847,8 +879,8 @@ example : (prun ⟨false, 0, false, 0, 1, [⟨7, 0, 2⟩, ⟨9, 0, 0⟩]⟩ (pin
 example : (prun { exCfg with dyn := true } (pinit .first { exCfg with dyn := true } []) [.arrive false true]).1
       = [.req [some 0, some 0, some 0] (.status 502)] := by decide
 -- proxy_refuses_only_when_nothing_available: hypotheses inhabited
-example : liveOK (mkPool exCfg exCfg.ups [0, 1, 2] [1, 0, 0]) .first = true ∧
-    (attempt exCfg false true exCfg.retries .none ⟨.first, [0, 1, 2], [1, 0, 0], [some 1, some 2, some 2], []⟩).2.1 = .status 503 := by decide
+example : liveOK (poolOf exCfg ⟨.first, [0, 1, 2], [1, 0, 0], [some 1, some 2, some 2], [], none⟩) .first = true ∧
+    (attempt exCfg false true exCfg.retries .none ⟨.first, [0, 1, 2], [1, 0, 0], [some 1, some 2, some 2], [], none⟩).2.1 = .status 503 := by decide
 
 -- keys: "10.0.0.5:1234" and "10.0.0.5:80" → "10.0.0.5"; "[fd00::1]:443" → "fd00::1"; "fd00::1" (no port) stays whole
 example : C10.splitHostPort (str "10.0.0.5:1234") = some (str "10.0.0.5", str "1234") ∧
@@ -888,5 +920,20 @@ example : parseLbPolicy exDur [⟨str "header", 1⟩, ⟨str "X-Key", 1⟩, ⟨s
     ⟨str "first", 2⟩, ⟨rbrace, 3⟩] = .ok [.header (str "X-Key")] := by decide
 -- caddyfile_weights_in_order / bad_weights_rejected: hypotheses inhabited
 example : weightsOf [str "3", str "0", str "+2"] = some [3, 0, 2] ∧ weightsOf [str "3", str "x"] = none := by decide
+
+-- randomChoose_never_runs_out_of_draws: hypotheses inhabited (5 upstreams, 6 draws, all accepted); a draw in
+-- the rejected sliver (Int31() = 2^31-1 with n = 3) makes Intn draw again
+example : (∀ d ∈ [0, 4294967296, 8589934592, 3, 5, 7], int31 d + exPool.length ≤ 2147483648) ∧
+    exPool.length + 1 ≤ [0, 4294967296, 8589934592, 3, 5, 7].length ∧
+    (selRandomChoose 2 exPool [0, 4294967296, 8589934592, 3, 5, 7]).1 = .sel 3 := by decide
+example : intn 3 [9223372036854775807, 4294967296 * 7] = some (1, []) ∧ intn 3 [9223372036854775807] = none := by decide
+
+-- circuit breaker configured: while it is open requests are refused (also with dynamic upstreams), afterwards proxied again
+example : (prun { exCfg with cb := true, dyn := true } (pinit .first { exCfg with cb := true, dyn := true } [])
+    [.arrive false true, .trip, .arrive false true, .untrip, .arrive false true]).1
+      = [.req [some 0, some 0, some 0] (.status 502), .done, .req [none, none, none] (.status 503), .done,
+         .req [some 0, some 0, some 0] (.status 502)] ∧
+    (prun { exCfg with cb := true } (pinit .first { exCfg with cb := true } []) [.trip, .arrive true true, .untrip, .arrive true true]).1
+      = [.done, .req [none, none, none] (.status 503), .done, .req [some 0] (.sent 1)] := by decide
 
 end CaddyModel.C08
